@@ -33,7 +33,11 @@ fn gen(rng: &mut Rng, pools: &Pools, idx: u64) -> (Vec<char>, Vec<char>, RCfg, &
         Profile::ScoreAscii
     };
     let mut alphabet = gen_alphabet(rng, pools, profile);
-    if rng.chance(1, 3) {
+    if rng.chance(1, 4) {
+        // first / last letters and digits and the characters next to the class boundaries
+        let k = rng.range(2, 6);
+        alphabet = (0..k).map(|_| *rng.pick(SCORE_WIDE) as char).collect();
+    } else if rng.chance(1, 3) {
         alphabet = "a b/_-.A1".chars().collect();
         if rng.coin() {
             rng.shuffle(&mut alphabet);
